@@ -35,7 +35,7 @@ LEVEL_NOTE = ("Trusted: transport model, virtual clock.  Requests after a transp
 TECHNIQUE = "deterministic simulation of request histories with scripted per-request fault sequences"
 
 TYPES = ["ok", "drops_ok", "exhaust", "drops_exc", "senderr", "icmp", "rst", "fin", "refused", "drops_sockerr",
-         "stray_frag"]
+         "stray_frag", "senderr_all"]
 SETTINGS = [(0.5, 1), (1.0, 3), (0.25, 2)]
 SWEEP_LEN = {"quick": 2, "thorough": 3}
 N_RANDOM = {"quick": 25_000, "thorough": 1_000_000}
@@ -100,7 +100,7 @@ def _mkreq(rnd, typ, tau, r, tr, think=None, newloop=False):
         q["s"] = rnd.choice([5, 7, 9])
     if typ == "drops_exc":
         q["code"] = rnd.choice([1, 2, 3, 4, 6, 77])
-    if typ in ("senderr", "icmp"):
+    if typ in ("senderr", "icmp", "senderr_all"):
         q["errno"] = 111  # ECONNREFUSED: the one error the library maps itself; other errnos are C09's subject
     if typ in ("icmp", "rst", "fin"):
         q["d"] = rnd.choice([DEFAULT_LATENCY, tau / 2, tau - EPS])
@@ -188,6 +188,10 @@ def _script(q, tau, r, tr):
         return [drop] * k + [{"k": "exc", "code": q["code"]}], ok, [], {"tx": k + 1, "outcome": "rejected"}
     if t == "senderr":
         return [{"k": "senderr", "errno": q["errno"]}], ok, [], None
+    if t == "senderr_all":
+        # EVERY transmission of this request ends in a send error: whatever the library does with socket errors
+        # (fail at once / retry), it must stay within the configured budget
+        return [], {"k": "senderr", "errno": q["errno"]}, [], {"tx_max": r + 1, "outcome": "failed"}
     if t == "icmp":
         return [{"k": "drop", "then": [{"ev": "icmp", "d": q["d"], "errno": q["errno"]}]}], ok, [], None
     if t in ("rst", "fin"):
@@ -219,6 +223,13 @@ def run_case(case):
 def check_group(violations, txs, tau, r, tr, t_end, outcome, exp, after, what):
     """txs: transmissions of one request; exp: {"tx": n, "outcome": o}"""
     n = len(txs)
+    if "tx_max" in exp:
+        if n > exp["tx_max"]:
+            violations.append(viol(f"C05:budget:{tr}:after={after}",
+                                   f"{what}: {n} transmissions, at most {exp['tx_max']} allowed (retries={r})"))
+        elif outcome not in ("failed", "maxretries"):
+            violations.append(viol(f"C05:outcome:{tr}:after={after}", f"{what}: outcome {outcome}, expected failed"))
+        return
     if n != exp["tx"]:
         violations.append(viol(f"C05:budget:{tr}:after={after}",
                                f"{what}: {n} transmissions, expected {exp['tx']} (retries={r}, timeout={tau})"))
